@@ -204,15 +204,16 @@ fn exec_reads(sc: &Scenario) -> Outcome {
     let ks = gen::key_set(&yaml);
     let shape = gen::rule_shape(&yaml);
     let t_start = std::time::Instant::now();
-    for sw in &sc.switch_sets {
-        if t_start.elapsed().as_secs() >= 6 {
+    let (plan_sw, plan_hs) = crate::exec::plan(sc);
+    for sw in &plan_sw {
+        if t_start.elapsed().as_secs() >= crate::exec::BACKSTOP_S {
             stats.inc("heavy_scenarios_cut_short");
             break;
         }
         let seeds: Vec<u64> = if *sw == 0 {
             vec![0]
         } else {
-            sc.hash_seeds.clone()
+            plan_hs.clone()
         };
         for h in seeds {
             let r = if *sw == 0 {
